@@ -1,16 +1,19 @@
-"""C20: a custom output received but not committed at a crash is lost when "succeeded" overtakes the restart poll and the scheduler dies again.
+"""C20: a custom output received but not committed at a crash is lost - with the
+tasks it triggers - when the job's "succeeded" overtakes the restart poll.
 
-A job message that was received (queued / processed in memory) but not yet
-committed when the scheduler dies is recoverable only through the restart
-poll.  If the job's `succeeded` message is processed before the poll callback,
-the task completes, is removed and that state is committed; the polled custom
-message is applied to the removed proxy afterwards and written by a LATER
-commit.  A second kill between those two commits (here: after the poll
-callback) leaves a database in which the task is finished without the output;
-nothing polls a finished task again, so the output - and whatever it triggers -
-is lost for good.  (With a single crash the late poll result still reaches
-task_outputs.)  Low severity design race; recorded because it contradicts "to
-the same final outputs".
+Workflow `a:x? => b`.  The message of x has been received (it sits in the
+scheduler's message queue) when the scheduler dies; it is recoverable only
+through the restart poll.  After the restart the job's `succeeded` message is
+processed BEFORE the poll callback: a completes (x is optional) and leaves the
+pool.  The poll result then reports x for a task that is no longer in the
+pool: nothing is spawned or satisfied, b never runs and the workflow shuts
+down as complete.  (Without a dependent the late poll result still reaches
+task_outputs unless the scheduler dies a second time before that commit:
+signature C20:final-outputs-differ-...:output-message-lost-in-crash-and-task-
+completed-before-restart-poll-returned, kills [[7, 1, 50, 0]] on the one-task
+workflow.)  Design-level race of modest severity; recorded because it
+contradicts "still runs every task instance that an uninterrupted run would
+run, to the same final outputs".
 
 How to run:  PYTHONPATH=/verif:/repo /venv/bin/python findings/C20_output_message_lost_succeeded_overtakes_restart_poll.py
 
@@ -35,11 +38,13 @@ import vf.props.c20 as c20  # noqa: E402
 # kills = [[class index into c20.KILL_CLASSES, n-th point of that class,
 #           effect number of a second kill in the restarted scheduler (0 =
 #           none), job progress while down (0 none / 1 one step / 2 to end)]]
-CASE = json.loads(r'''{"spec": {"mode": "integer", "icp": 1, "fcp": 1, "retries": {}, "extra": {}, "custom": {"a": {"x": "x"}}, "tasks": ["a"], "opt": {"a": {"succ": false, "submit": false, "fail_required": false, "custom": {"x": true}}}, "sections": [{"rec": {"kind": "R1", "at": 1, "form": 0}, "lines": [{"lhs": null, "rhs": ["a"]}]}]}, "outcomes": {}, "ret_delays": [], "kills": [[7, 1, 50, 0]]}''')
+CASE = json.loads(r'''{"spec": {"mode": "integer", "icp": 1, "fcp": 1, "retries": {}, "extra": {}, "custom": {"a": {"x": "x"}}, "tasks": ["a", "b"], "opt": {"a": {"succ": false, "submit": false, "fail_required": false, "custom": {"x": true}}, "b": {"succ": false, "submit": false, "fail_required": false, "custom": {}}}, "sections": [{"rec": {"kind": "R1", "at": 1, "form": 0}, "lines": [{"lhs": null, "rhs": ["a"]}, {"lhs": {"t": "a", "off": null, "abs": null, "out": "x", "implicit": false, "longform": false}, "rhs": ["b"]}]}]}, "outcomes": {}, "ret_delays": [], "kills": [[7, 1, 0, 0]]}''')
 
 if __name__ == '__main__':
     res = c20.explain(CASE)
-    want = 'C20:final-outputs-differ-from-uninterrupted-run:output-message-lost-in-crash-and-task-completed-before-restart-poll-returned'
+    want = ('C20:instance-never-run-after-crash-restart:downstream-of-output-'
+            'message-lost-in-crash-and-task-completed-before-restart-poll-'
+            'returned')
     ok = any(v.sig == want for v in res.violations)
     print()
     print('REPRODUCED' if ok else 'NOT REPRODUCED', want)
